@@ -32,6 +32,8 @@ type Config struct {
 	SymMapOrder   bool
 	MaxViolations int
 	Seed          int64
+	Concolic      bool
+	Domains       bool
 	Witnesses     int // number of OK paths for which a witness model is kept
 }
 
@@ -39,7 +41,7 @@ func DefaultConfig() Config {
 	return Config{
 		Workers: 8, MaxInstrs: 3_000_000, MaxPaths: 200_000, MaxWall: 10 * time.Minute,
 		MaxVirtualNs: int64(3600) * 1e9, MaxGoroutines: 64, ConcretizeCap: 64,
-		SolverCmd: solverCmd(), SolverTimeout: 20000, MaxViolations: 3, Witnesses: 5,
+		SolverCmd: solverCmd(), SolverTimeout: 20000, MaxViolations: 3, Witnesses: 5, Concolic: os.Getenv("GOSMT_NOCONCOLIC") == "", Domains: os.Getenv("GOSMT_NODOMAINS") == "",
 	}
 }
 
@@ -54,8 +56,12 @@ type Explorer struct {
 	InitPkgs func(p *ssa.Package) bool // may the engine run this package's init?
 	OnExit   func(w *Worker, code int)
 
+	Sem       chan struct{} // global worker slots shared by concurrently running explorers
+	wg        sync.WaitGroup
+	nworkers  int
+	active    int
 	mu        sync.Mutex
-	work      [][]Decision
+	work      []workItem
 	busy      int
 	stop      bool
 	cond      *sync.Cond
@@ -63,7 +69,7 @@ type Explorer struct {
 
 	// results
 	Paths, PathsOK, PathsInfeasible, PathsInconclusive int64
-	Decisions, Obligations, Discharged                 int64
+	Decisions, Obligations, Discharged, QuickDecided   int64
 	Violations                                         []*Violation
 	Inconclusive                                       map[string]int
 	Reached                                            map[string]int
@@ -85,13 +91,22 @@ type Explorer struct {
 
 func (ex *Explorer) Known(id string) bool { return ex.KnownIDs[id] }
 
-func (ex *Explorer) push(prefix []Decision) {
-	ex.mu.Lock()
-	ex.work = append(ex.work, prefix)
-	ex.mu.Unlock()
-	ex.cond.Signal()
+type workItem struct {
+	prefix []Decision
+	model  map[string]uint64 // a model of the path condition at the end of the prefix (may be nil)
 }
 
+func (ex *Explorer) push(prefix []Decision) { ex.pushM(prefix, nil) }
+
+func (ex *Explorer) pushM(prefix []Decision, m map[string]uint64) {
+	ex.mu.Lock()
+	ex.work = append(ex.work, workItem{prefix, m})
+	ex.mu.Unlock()
+	ex.cond.Signal()
+	ex.maybeGrow()
+}
+
+func (ex *Explorer) addQuick()      { ex.mu.Lock(); ex.QuickDecided++; ex.mu.Unlock() }
 func (ex *Explorer) addDecision()   { ex.mu.Lock(); ex.Decisions++; ex.mu.Unlock() }
 func (ex *Explorer) addObligation() { ex.mu.Lock(); ex.Obligations++; ex.mu.Unlock() }
 func (ex *Explorer) addDischarged() { ex.mu.Lock(); ex.Discharged++; ex.mu.Unlock() }
@@ -139,27 +154,60 @@ func (ex *Explorer) Run() {
 	ex.Stubs = map[string]int{}
 	ex.Once = map[string]int{}
 	ex.start = time.Now()
-	ex.work = [][]Decision{nil}
-	var wg sync.WaitGroup
-	for i := 0; i < ex.Cfg.Workers; i++ {
-		wg.Add(1)
-		go func(id int) {
-			defer wg.Done()
-			w, err := newWorker(ex, id)
-			if err != nil {
-				ex.noteInconclusive("cannot start solver: " + err.Error())
-				ex.mu.Lock()
-				ex.stop = true
-				ex.mu.Unlock()
-				ex.cond.Broadcast()
-				return
-			}
-			defer w.close()
-			w.loop()
-		}(i)
+	ex.work = []workItem{{}}
+	if ex.Sem == nil {
+		ex.Sem = make(chan struct{}, ex.Cfg.Workers)
 	}
-	wg.Wait()
+	ex.Sem <- struct{}{} // the first worker always runs
+	ex.spawnWorker()
+	ex.wg.Wait()
 	ex.Wall = time.Since(ex.start)
+}
+
+// spawnWorker starts one worker; the caller holds a slot of ex.Sem for it.
+func (ex *Explorer) spawnWorker() {
+	ex.mu.Lock()
+	id := ex.nworkers
+	ex.nworkers++
+	ex.active++
+	ex.mu.Unlock()
+	ex.wg.Add(1)
+	go func() {
+		defer ex.wg.Done()
+		defer func() {
+			<-ex.Sem
+			ex.mu.Lock()
+			ex.active--
+			ex.mu.Unlock()
+			ex.cond.Broadcast()
+		}()
+		w, err := newWorker(ex, id)
+		if err != nil {
+			ex.noteInconclusive("cannot start solver: " + err.Error())
+			ex.mu.Lock()
+			ex.stop = true
+			ex.mu.Unlock()
+			ex.cond.Broadcast()
+			return
+		}
+		defer w.close()
+		w.loop()
+	}()
+}
+
+// maybeGrow adds a worker when the queue is long and a global slot is free.
+func (ex *Explorer) maybeGrow() {
+	ex.mu.Lock()
+	want := len(ex.work) > 2 && ex.active < ex.Cfg.Workers && !ex.stop
+	ex.mu.Unlock()
+	if !want {
+		return
+	}
+	select {
+	case ex.Sem <- struct{}{}:
+		ex.spawnWorker()
+	default:
+	}
 }
 
 func (w *Worker) loop() {
@@ -174,7 +222,7 @@ func (w *Worker) loop() {
 			ex.cond.Broadcast()
 			return
 		}
-		prefix := ex.work[len(ex.work)-1]
+		item := ex.work[len(ex.work)-1]
 		ex.work = ex.work[:len(ex.work)-1]
 		ex.busy++
 		if ex.Paths >= ex.Cfg.MaxPaths {
@@ -188,7 +236,7 @@ func (w *Worker) loop() {
 		ex.Paths++
 		ex.mu.Unlock()
 
-		p := w.runPath(prefix)
+		p := w.runPath(item.prefix, item.model)
 
 		ex.mu.Lock()
 		ex.busy--
@@ -288,8 +336,8 @@ func (w *Worker) close() {
 	w.solver.Close()
 }
 
-func (w *Worker) runPath(prefix []Decision) *Path {
-	p := &Path{w: w, prefix: prefix, nameCtr: map[string]int{}, extra: map[string]uint64{}, symByName: map[string]*smt.Term{},
+func (w *Worker) runPath(prefix []Decision, startModel map[string]uint64) *Path {
+	p := &Path{w: w, prefix: prefix, pendingModel: startModel, nameCtr: map[string]int{}, extra: map[string]uint64{}, dom: map[string]domain{}, entangled: map[string]bool{}, svCache: map[int64]*svInfo{}, symByName: map[string]*smt.Term{},
 		decided: map[int64]bool{}, hasDecided: map[int64]bool{}, Reached: map[string]bool{}, Findings: map[string]bool{}}
 	w.path = p
 	w.globals = map[*ssa.Global]*Value{}
